@@ -25,7 +25,13 @@ BODIES = [
          {"name": "loop contract of the restart loop", "re": r"while \(this_iter != this_iterMax\) \{",
           "sub": ("while (this_iter != this_iterMax)\n  __CPROVER_assigns(this_iter, this_is_delta_zeros_defined, GHOST_ASSIGNS)\n"
                   "  __CPROVER_loop_invariant(this_iter <= this_iterMax && g_success_reported == 0 && g_failure_reported == 0)\n"
-                  "  __CPROVER_decreases(this_iterMax - this_iter)\n  {"), "min": 1, "max": 1}, NOCPP]),
+                  "  __CPROVER_decreases(this_iterMax - this_iter)\n  {"), "max": 1},
+         {"name": "loop contract of the restart loop (do-while form, rewritten as while (first || cond))", "do_while": r"this_iter != this_iterMax",
+          "contract": ("  __CPROVER_assigns(dw_first, this_iter, this_is_delta_zeros_defined, GHOST_ASSIGNS)\n"
+                       "  __CPROVER_loop_invariant(this_iter <= this_iterMax && g_success_reported == 0 && g_failure_reported == 0)\n"
+                       "  __CPROVER_decreases((dw_first ? 1 : 0) + this_iterMax - this_iter)")},
+         {"name": "the restart loop carries a loop contract (either form)", "require": r"__CPROVER_loop_invariant"},
+         NOCPP]),
 ]
 
 D = "include/TFEL/Math/NonLinearSolvers/"
@@ -67,3 +73,7 @@ def run(ctx):
     for fn in CNC:
         jobs.append(Job(fn, tpl, bodies=BODIES, enforce=fn, needs=[fn], min_obligations=2))
     run_jobs(ctx, jobs)
+    # E2 part: the linear solve shared by all corrections, on the unmodified template
+    from engines.symvc.discharge import run_spec
+    ctx.assume("E2 part: TinyNonLinearSolverBase::solveLinearSystem instantiated at the symbolic scalar for N = 1, 2 (closed forms of TinyMatrixSolve; larger N: C07)")
+    run_spec(ctx, expect_min=4)
